@@ -40,7 +40,7 @@ func GenTable(rng *rand.Rand, format string, maxLines int) *Table {
 	}
 	hosts := []string{"h1", "h2", "h3", "h4"}[:1+rng.Intn(4)]
 	statuses := []string{"200", "404", "500", "301"}[:1+rng.Intn(4)]
-	users := []string{"alice", "bob", "carol", "dave", "eve9", "u 1", "u  2", "Oct  4 x"}[:1+rng.Intn(8)]
+	users := []string{"alice", "u  2", "bob", "Oct  4 x", "carol", "dave", "eve9", "u 1"}[:1+rng.Intn(8)]
 	paths := []string{"/", "/login", "/api/v1/items", "/api/v2", "/a-b_c", "select", "from", "/x?y=1"}
 	type fdef struct {
 		name string
@@ -358,6 +358,12 @@ func GenQuery(rng *rand.Rand, t *Table) *Query {
 					lit := pick(rng, quotedPool)
 					if vs := t.Values[f]; len(vs) > 0 {
 						lit = vs[rng.Intn(len(vs))]
+						// prefer values in which a run of blanks matters
+						for _, v := range vs {
+							if strings.Contains(v, "  ") && rng.Intn(2) == 0 {
+								lit = v
+							}
+						}
 						if len(lit) > 2 && rng.Intn(2) == 0 {
 							a := rng.Intn(len(lit))
 							b := a + 1 + rng.Intn(len(lit)-a)
